@@ -266,7 +266,9 @@ int WorkerMain(int argc, char ** argv, const WorkerDef & def)
    g_verbose = Flag(argc, argv, "--verbose");
    g_watchdogSecs = atoi(Arg(argc, argv, "--watchdog", "20"));
 
-   if ((pd->forkPerRun)&&(mode != "gen")&&(getenv("VSIM_NOASLR") == NULL))
+   // (a fresh-process replay -- "exec" -- always runs without address-space randomisation, in every engine: where a wild read of the code under test lands
+   //  (unmapped memory, a live heap block, a freed one) then no longer varies from one replay to the next, so a crash keeps its class)
+   if (((pd->forkPerRun)||(mode == "exec"))&&(mode != "gen")&&(getenv("VSIM_NOASLR") == NULL))
    {
       // every child must start from the byte-identical address space, in search and in replay alike
       setenv("VSIM_NOASLR", "1", 1);
